@@ -41,6 +41,16 @@ def load_modules():
     return mods
 
 
+class LoopSpecs(list):
+    """the specs that sidecar modules give for one loop"""
+
+    def pick(self, current_module):
+        for ls in self:
+            if getattr(ls, 'module', None) is current_module:
+                return ls
+        return self[0]
+
+
 def build_registry(mods):
     reg = Registry()
     reg.loops_by_key = {}
@@ -50,7 +60,8 @@ def build_registry(mods):
         for f, mm in m.models.items():
             reg.models[f] = mm
         for ls in m.loops:
-            reg.loops[(ls.qname, ls.ordinal)] = ls
+            # keyed per module: the spec of the module whose contract is being verified is preferred (loops.find_spec)
+            reg.loops[(ls.qname, ls.ordinal, m.prop)] = ls
     from contracts import common
     from . import models as _models
     reg.models[common.forall_range] = _models.q_forall
@@ -64,14 +75,14 @@ def build_registry(mods):
     reg.models[common.items_of] = _models.m_items_of
     reg.link()
     # loop specs keyed by (file, ast-qualname, ordinal)
-    for (q, ordinal), ls in reg.loops.items():
+    for (q, ordinal, _prop), ls in reg.loops.items():
         modname, _, path = q.partition(':')
         try:
             mod = importlib.import_module(modname)
         except Exception as e:
             reg.missing.append((q, 'loop spec: cannot import %s' % modname))
             continue
-        reg.loops_by_key[(mod.__file__, path, ordinal)] = ls
+        reg.loops_by_key.setdefault((mod.__file__, path, ordinal), LoopSpecs()).append(ls)
     return reg
 
 
